@@ -92,25 +92,25 @@ theorem sloop_lt (M : Nat) (hM : 0 < M) (fut : Nat → Nat) :
               (by simp [hlen1]) h0 hle
             simp only [List.length_drop]; omega
 
-/-- the reader stands where the printer calls `ops` remain -/
-def At (P : Params) (ops : List Op) (r : R) : Prop :=
-  ∃ (ws : List Nat) (items : List Item), r.inp = serialize P items ∧
+/-- the reader stands where the printer calls `ops` remain, with `d` frames open -/
+def At (P : Params) (d : Nat) (ops : List Op) (r : R) : Prop :=
+  ∃ (ws : List Nat) (items : List Item), r.frames.length = d ∧ r.inp = serialize P items ∧
     RelR P.sizeMax (fun k => bytesUntilClose k ops) 0 r.frames ws ∧ (∀ w ∈ ws, w < P.sizeMax) ∧
     wellNestedFrom ws.length ops = true ∧ items.map Item.erase = spec P.sizeMax ws ops
 
 theorem at_init (P : Params) (hP : P.Ok) (ops : List Op) (wf : WellNested ops) (img : Bytes)
-    (hw : writeAll P ops = some img) : At P ops { inp := img, frames := [] } := by
+    (hw : writeAll P ops = some img) : At P 0 ops { inp := img, frames := [] } := by
   simp only [writeAll] at hw
   split at hw
   · simp at hw
   · rename_i w' hrun
     simp only [Option.some.injEq] at hw
     subst hw
-    exact ⟨[], w'.out, rfl, by simp [RelR], by simp, wf, wrun_spec_init P hP.size_pos ops w' hrun wf⟩
+    exact ⟨[], w'.out, rfl, rfl, by simp [RelR], by simp, wf, wrun_spec_init P hP.size_pos ops w' hrun wf⟩
 
-theorem at_start (P : Params) (hP : P.Ok) (ops : List Op) (r : R) (h : At P (.start :: ops) r) :
-    At P ops (rstart P r) ∧ (rstart P r).frames ≠ [] := by
-  obtain ⟨ws, items, hinp, hrel, hws, wf, hitems⟩ := h
+theorem at_start (P : Params) (hP : P.Ok) (d : Nat) (ops : List Op) (r : R) (h : At P d (.start :: ops) r) :
+    At P (d + 1) ops (rstart P r) := by
+  obtain ⟨ws, items, hd, hinp, hrel, hws, wf, hitems⟩ := h
   simp only [spec] at hitems
   cases items with
   | nil => simp at hitems
@@ -124,7 +124,7 @@ theorem at_start (P : Params) (hP : P.Ok) (ops : List Op) (r : R) (h : At P (.st
           (i % (P.inMax + 1)) :: r.frames) := by
       simp only [rstart, hinp, serialize_cons, hmeta]
     rw [e]
-    refine ⟨⟨0 :: ws, items1, rfl, ?_, ?_, by simpa [wellNestedFrom] using wf, hitems.2⟩, by simp⟩
+    refine ⟨0 :: ws, items1, by simp [hd], rfl, ?_, ?_, by simpa [wellNestedFrom] using wf, hitems.2⟩
     · simp only [RelR, Nat.zero_add, Nat.sub_zero, true_and]
       refine ⟨by simp [BEq.beq], ?_⟩
       rw [RelR_shift]
@@ -134,9 +134,9 @@ theorem at_start (P : Params) (hP : P.Ok) (ops : List Op) (r : R) (h : At P (.st
       · exact hP.size_pos
       · exact hws w hw
 
-theorem at_stop (P : Params) (ops : List Op) (r : R) (h : At P (.stop :: ops) r) :
-    ∃ r', rstop r = some r' ∧ At P ops r' := by
-  obtain ⟨ws, items, hinp, hrel, hws, wf, hitems⟩ := h
+theorem at_stop (P : Params) (d : Nat) (ops : List Op) (r : R) (h : At P (d + 1) (.stop :: ops) r) :
+    ∃ r', rstop r = some r' ∧ At P d ops r' := by
+  obtain ⟨ws, items, hd, hinp, hrel, hws, wf, hitems⟩ := h
   cases ws with
   | nil => simp [wellNestedFrom] at wf
   | cons w ws' =>
@@ -149,14 +149,14 @@ theorem at_stop (P : Params) (ops : List Op) (r : R) (h : At P (.stop :: ops) r)
       have hw := hws w List.mem_cons_self
       have hf0 : f.written = 0 := by
         rw [h1]; simp only [bytesUntilClose]; omega
-      refine ⟨{ r with frames := fs }, by simp [rstop, hfr, hf0], ws', items, hinp, ?_,
+      refine ⟨{ r with frames := fs }, by simp [rstop, hfr, hf0], ws', items, by simpa [hfr] using hd, hinp, ?_,
         fun x hx => hws x (List.mem_cons_of_mem _ hx), by simpa [wellNestedFrom] using wf, by simpa [spec] using hitems⟩
       rw [Nat.zero_add, RelR_shift] at h3
       exact h3
 
-theorem at_read (P : Params) (hP : P.Ok) (bs : Bytes) (ops : List Op) (r : R) (h : At P (.write bs :: ops) r) :
-    ∃ r', rread P r bs.length = (r', bs) ∧ At P ops r' := by
-  obtain ⟨ws, items, hinp, hrel, hws, wf, hitems⟩ := h
+theorem at_read (P : Params) (hP : P.Ok) (d : Nat) (bs : Bytes) (ops : List Op) (r : R) (h : At P d (.write bs :: ops) r) :
+    ∃ r', rread P r bs.length = (r', bs) ∧ At P d ops r' := by
+  obtain ⟨ws, items, hd, hinp, hrel, hws, wf, hitems⟩ := h
   simp only [spec] at hitems
   have hws' : ∀ w ∈ ws, w ≤ P.sizeMax := fun w hw => Nat.le_of_lt (hws w hw)
   have hlen := RelR_length hrel
@@ -165,17 +165,22 @@ theorem at_read (P : Params) (hP : P.Ok) (bs : Bytes) (ops : List Op) (r : R) (h
     rloop_spec P hP (fun k => bytesUntilClose k ops) (loopFuel bs.length ws.length) r.frames ws bs [] items _
       hrel hws' hmeas hitems
   have hlt := sloop_lt P.sizeMax hP.size_pos (fun k => bytesUntilClose k ops) (loopFuel bs.length ws.length) ws bs hws' hmeas
-  refine ⟨{ inp := serialize P items', frames := rs' }, ?_, _, items', rfl, g3, hlt, by simpa [wellNestedFrom, g5] using wf, g2⟩
+  refine ⟨{ inp := serialize P items', frames := rs' }, ?_, _, items', by rw [← hd, hlen, ← g5]; exact RelR_length g3, rfl, g3, hlt,
+    by simpa [wellNestedFrom, g5] using wf, g2⟩
   have : r = { inp := serialize P items, frames := r.frames } := by cases r; simp_all
   rw [this]
   simp only [rread, hlen]
   simpa using g1
 
 /-- `LYB_LAST_SIBLING(lybctx).written` is zero exactly when the innermost frame has no payload byte left -/
-theorem at_written (P : Params) (ops : List Op) (r : R) (f : RFrame) (fs : List RFrame) (h : At P ops r)
-    (hfr : r.frames = f :: fs) : f.written = 0 ↔ bytesUntilClose 0 ops = 0 := by
-  obtain ⟨ws, items, hinp, hrel, hws, wf, hitems⟩ := h
+theorem at_written (P : Params) (d : Nat) (ops : List Op) (r : R) (h : At P (d + 1) ops r) :
+    (match r.frames with | f :: _ => f.written | [] => 0) = 0 ↔ bytesUntilClose 0 ops = 0 := by
+  obtain ⟨ws, items, hd, hinp, hrel, hws, wf, hitems⟩ := h
+  cases hfr : r.frames with
+  | nil => rw [hfr] at hd; simp at hd
+  | cons f fs =>
   rw [hfr] at hrel
+  simp only
   cases ws with
   | nil => simp [RelR] at hrel
   | cons w ws' =>
